@@ -75,7 +75,7 @@ def make_file(rnd):
     layers = ['M1', 'M2', 'M3']
     vias = ['VIA12', 'VIA23', 'via1_4']
     d = dict(version=rnd.choice(['5.8', '5.7']), divider='/', busbit='[]', design=rnd.choice(['top', 'b15_core']),
-             units=rnd.choice([1000, 2000]), die=[[0, 0], [rnd.randint(10, 90) * 100, rnd.randint(10, 90) * 100]])
+             units=rnd.choice([1000, 2000]), die=[[0, 0], [rnd.randint(10, 90) * 100, rnd.randint(10, 90) * 100]] + ([[rnd.randint(0, 90) * 100, rnd.randint(0, 90) * 100] for _ in range(rnd.randint(1, 4))] if rnd.random() < 0.4 else []))     # rectangle or polygon
     d['rows'] = [dict(name='ROW_%d' % k, site='unit', x=0, y=k * 1672, ori=rnd.choice(['N', 'FS']), nx=rnd.randint(5, 80), ny=1, sx=152, sy=0) for k in range(rnd.randint(0, 3))]
     d['tracks'] = [dict(dir=rnd.choice('XY'), start=rnd.randint(0, 200), n=rnd.randint(1, 50), step=rnd.choice([152, 304]), layer=rnd.choice(layers)) for _ in range(rnd.randint(0, 3))]
     d['viadefs'] = [dict(name=v, rule=v + 'R', cut=[50, 50], layers=['M1', 'V1', 'M2'], spacing=[60, 70], encl=[5, 6, 7, 8], rowcol=[rnd.randint(1, 3), rnd.randint(1, 3)])
@@ -95,7 +95,7 @@ def make_file(rnd):
 
 def render(d, rnd):
     t = ['# generated', 'VERSION %s ;' % d['version'], 'DIVIDERCHAR "%s" ;' % d['divider'], 'BUSBITCHARS "%s" ;' % d['busbit'], 'DESIGN %s ;' % d['design'],
-         'UNITS DISTANCE MICRONS %d ;' % d['units'], 'DIEAREA ( %d %d ) ( %d %d ) ;' % (d['die'][0][0], d['die'][0][1], d['die'][1][0], d['die'][1][1])]
+         'UNITS DISTANCE MICRONS %d ;' % d['units'], 'DIEAREA %s ;' % ' '.join('( %d %d )' % (x, y) for x, y in d['die'])]
     for r in d['rows']:
         t.append('ROW %s %s %d %d %s DO %d BY %d STEP %d %d ;' % (r['name'], r['site'], r['x'], r['y'], r['ori'], r['nx'], r['ny'], r['sx'], r['sy']))
     for r in d['tracks']:
